@@ -66,6 +66,8 @@ def tie(ctx):
     use_cases = []
     use_want = []
     for (files, main, std, abstract), a, b in zip(projs, real, mod):
+        dist["main file spelled " + {"/p/": "absolute (/p/main.sy)", "": "bare (main.sy)", "./": "./main.sy",
+                                     "proj/": "relative dir (proj/main.sy)"}[main[:-len("main.sy")]]] += 1
         if a.startswith("TREE "):
             text = vlib.unhex(a[5:]).decode("utf-8")
             mods = MOD_RX.findall(text)
@@ -75,10 +77,10 @@ def tie(ctx):
             for chunk in text.split("(module ")[1:]:
                 cur = chunk.split(" ", 1)[0]
                 for m in USE_RX.finditer(chunk):
-                    use_cases.append("%s\t%s\t%s" % ("/p", cur, m.group(1)))
+                    use_cases.append("%s\t%s\t%s" % (rg.rust_parent(main), cur, m.group(1)))
                     use_want.append("USE %s %s" % (m.group(4), m.group(3) if m.group(2) == "implicit" else None))
                 for m in FROM_RX.finditer(chunk):
-                    use_cases.append("%s\t%s\t%s" % ("/p", cur, m.group(1)))
+                    use_cases.append("%s\t%s\t%s" % (rg.rust_parent(main), cur, m.group(1)))
                     use_want.append("USE %s %s" % (m.group(2), None))
         elif a.startswith("ERR"):
             failed = []
@@ -186,8 +188,11 @@ def oracle_items(ctx, n, salt):
         single = rg.single(rg.EXT_PRINT + rg.Render(nd).program(p), False)
         for _ in range(3):
             lay = rg.Layout(p, r, nd, prelude=rg.EXT_PRINT)
-            items.append({"kind": "layout", "single": single, "files": lay.files(), "p": p, "nd": nd,
-                          "styles": sorted(set(lay.style.values())), "nmods": len(lay.paths)})
+            # the project directory in every spelling: absolute, bare file names, ./, a relative directory
+            prefix = r.choice(SPELLINGS)
+            files, main = rg.respell_files(lay.files(), "/main.sy", prefix)
+            items.append({"kind": "layout", "single": single, "files": files, "main": main, "p": p, "nd": nd,
+                          "styles": sorted(set(lay.style.values())), "nmods": len(lay.paths), "spelling": prefix})
         # not imported -> not visible: refer to another module's global without importing it
         lay = rg.Layout(p, r, nd, nmods=2, styles=["use", "use_as"], prelude=rg.EXT_PRINT)
         files = lay.files()
@@ -204,6 +209,41 @@ def oracle_items(ctx, n, salt):
                 f2[q] = files[q].replace(qual, bare, 1)
                 items.append({"kind": "unimported", "files": f2, "p": p, "nd": nd})
     items += chain_items(ctx, n // 3 + 1, salt)
+    items += shared_state_items(ctx, n // 2 + 4, salt)
+    return items
+
+
+SPELLINGS = ["/", "", "./", "proj/", "/abs/dir/"]
+
+
+def shared_state_items(ctx, n, salt):
+    """one module with mutable state reached through TWO import routes -- once relatively, once through a
+    `/`-rooted path, also as a folder (exports.sy) and from a sub-folder -- under every spelling of the main
+    path: the module must be loaded once (the counter counts every bump)"""
+    items = []
+    for i in range(n):
+        r = vlib.rng(ctx.seed, "%s-shared-%d" % (salt, i))
+        folder = r.random() < 0.4
+        cname = r.choice(["counter", "state"])
+        cfile = "/%s/exports.sy" % cname if folder else "/%s.sy" % cname
+        rel = cname + "/" if folder else cname              # written in a file of the root directory
+        rooted = "/" + rel
+        wdir = r.choice(["/lib/", "/lib/deep/", "/"])
+        counter = rg.EXT_PRINT + "count := 0\n\nbump :: fn do\n    count += 1\nend\n"
+        # the worker imports the counter through the rooted path (or, when it lives in the root itself,
+        # relatively while main uses the rooted path)
+        main_imp, worker_imp = (rel, rooted) if wdir != "/" or r.random() < 0.5 else (rooted, rel)
+        worker = rg.EXT_PRINT + "use %s\n\nwork :: fn do\n    %s.bump()\nend\n" % (worker_imp, cname)
+        k = r.randint(1, 3)
+        main = (rg.EXT_PRINT + "use %s\nuse %sworker\n\nstart :: fn do\n" % (main_imp, wdir[1:])
+                + "    worker.work()\n" * k + "    %s.bump()\n    print(%s.count)\nend\n" % (cname, cname))
+        files = {"/main.sy": main, cfile: counter, wdir + "worker.sy": worker}
+        single = rg.single(rg.EXT_PRINT + "count := 0\n\nbump :: fn do\n    count += 1\nend\n\n"
+                           "work :: fn do\n    bump()\nend\n\nstart :: fn do\n" + "    work()\n" * k
+                           + "    bump()\n    print(count)\nend\n", False)
+        for prefix in SPELLINGS:
+            f2, m2 = rg.respell_files(files, "/main.sy", prefix)
+            items.append({"kind": "shared-state", "single": single, "files": f2, "main": m2, "spelling": prefix})
     return items
 
 
@@ -236,7 +276,7 @@ def chain_items(ctx, n, salt):
 
 
 def judge(it, res):
-    if it["kind"] in ("layout", "reexport", "reexport-ns"):
+    if it["kind"] in ("layout", "reexport", "reexport-ns", "shared-state"):
         a, b = res
         if a == b:
             return None
@@ -256,9 +296,9 @@ def classify(it, v):
 
 
 def lines_of(it):
-    if it["kind"] in ("layout", "reexport", "reexport-ns"):
-        return [it["single"], rg.case(it["files"], "/main.sy", False)]
-    return [rg.case(it["files"], "/main.sy", False)]
+    if it["kind"] in ("layout", "reexport", "reexport-ns", "shared-state"):
+        return [it["single"], rg.case(it["files"], it.get("main", "/main.sy"), False)]
+    return [rg.case(it["files"], it.get("main", "/main.sy"), False)]
 
 
 def run_oracle(ctx, items):
@@ -286,6 +326,8 @@ def always(ctx):
             for s in it["styles"]:
                 styles[s] += 1
             styles["modules=%d" % it["nmods"]] += 1
+        if "spelling" in it:
+            styles["main path under %r" % it["spelling"]] += 1
         if v is not None:
             c = classify(it, v)
             key += ":" + (c or "unexplained")
@@ -304,7 +346,10 @@ def always(ctx):
                            "same globals partitioned over 2-4 files/folders with a random import style per module pair "
                            "(use, use-as, from, from-as, chain a.b.x; relative and rooted paths, exports.sy) -> same "
                            "accept/reject and same trace; an unqualified reference to a global that was not imported -> "
-                           "rejected; re-export chains through from-imports -> same as single file"}
+                           "rejected; re-export chains through from-imports -> same as single file; every layout with the main file given as an "
+                           "absolute path, a bare name (main.sy), ./main.sy or proj/main.sy (the file map keyed accordingly); a module "
+                           "with mutable state reached once relatively and once through a `/`-rooted path (file or exports.sy, "
+                           "from sub-folders) must be loaded once"}
 
 
 def describe(it, v):
